@@ -243,6 +243,9 @@ def _run_history(args):
     live = []
     nsims = 0
     out = []
+    # a history starts from a FIXED generator state (not from whatever the previous history of this worker left):
+    # every history is reproducible on its own, replays included
+    ciw.seed(1000 + seed)
 
     def net(c, how):
         if how == "fresh":
